@@ -289,7 +289,14 @@ struct SlowReader<'a> {
 impl<'a> Read for SlowReader<'a> {
     fn read(&mut self, buf: &mut [u8]) -> std::io::Result<usize> {
         self.calls += 1;
-        if self.mode == 2 && self.calls % 3 == 0 {
+        // interruption schedules: every third call (starting with the third, or with the very first), or every other call
+        let interrupt = match self.mode {
+            2 => self.calls % 3 == 0,
+            3 => self.calls % 3 == 1,
+            4 => self.calls % 2 == 1,
+            _ => false,
+        };
+        if interrupt {
             return Err(std::io::Error::new(std::io::ErrorKind::Interrupted, "interrupted"));
         }
         if buf.is_empty() || self.pos >= self.data.len() {
@@ -297,7 +304,7 @@ impl<'a> Read for SlowReader<'a> {
         }
         let max = match self.mode {
             0 => 1,
-            2 => 1 + self.rng.below(3),
+            2 | 3 | 4 => 1 + self.rng.below(3),
             _ => 1 + self.rng.below(17),
         };
         let n = max.min(buf.len()).min(self.data.len() - self.pos);
@@ -742,7 +749,7 @@ pub fn main(a: &Args) {
                 sup.judge_decode(dec, &how, &data, &resp, false, replay.clone());
                 // read partition: the same bytes through hostile readers must give the same result
                 if i % 4 == 0 && data.len() <= 4096 && matches!(resp["o"].as_str(), Some("ok") | Some("err")) {
-                    for m in 0..3u8 {
+                    for m in 0..5u8 {
                         let r2 = sup.w.call(&format!("P {} {} {}", dec, m, canon::hex(&data)), to);
                         sup.rep.evaluations += 1;
                         sup.rep.count(&format!("partition.mode{}", m));
